@@ -45,6 +45,7 @@ theorem Inv3U.step_u1 (I : Inv1 c s) (J : Inv2 c s) (K : Inv3 c s) (U : Inv3U s)
   have b3e := K.b3e
   have a3 := K.a3
   have a6 := K.a6
+  have a5 := K.a5
   have l4 := J.l4
   have hwf := I.wf t
   have hx1 := carry_dispatchPc
@@ -106,6 +107,7 @@ theorem Inv3U.step_u2 (I : Inv1 c s) (J : Inv2 c s) (K : Inv3 c s) (U : Inv3U s)
   have b3e := K.b3e
   have a3 := K.a3
   have a6 := K.a6
+  have a5 := K.a5
   have l4 := J.l4
   have hwf := I.wf t
   have hx1 := carry_dispatchPc
@@ -167,6 +169,7 @@ theorem Inv3U.step_u3 (I : Inv1 c s) (J : Inv2 c s) (K : Inv3 c s) (U : Inv3U s)
   have b3e := K.b3e
   have a3 := K.a3
   have a6 := K.a6
+  have a5 := K.a5
   have l4 := J.l4
   have hwf := I.wf t
   have hx1 := carry_dispatchPc
@@ -228,6 +231,7 @@ theorem Inv3U.step_u4 (I : Inv1 c s) (J : Inv2 c s) (K : Inv3 c s) (U : Inv3U s)
   have b3e := K.b3e
   have a3 := K.a3
   have a6 := K.a6
+  have a5 := K.a5
   have l4 := J.l4
   have hwf := I.wf t
   have hx1 := carry_dispatchPc
@@ -289,6 +293,7 @@ theorem Inv3U.step_u5 (I : Inv1 c s) (J : Inv2 c s) (K : Inv3 c s) (U : Inv3U s)
   have b3e := K.b3e
   have a3 := K.a3
   have a6 := K.a6
+  have a5 := K.a5
   have l4 := J.l4
   have hwf := I.wf t
   have hx1 := carry_dispatchPc
@@ -350,6 +355,7 @@ theorem Inv3U.step_u6 (I : Inv1 c s) (J : Inv2 c s) (K : Inv3 c s) (U : Inv3U s)
   have b3e := K.b3e
   have a3 := K.a3
   have a6 := K.a6
+  have a5 := K.a5
   have l4 := J.l4
   have hwf := I.wf t
   have hx1 := carry_dispatchPc
